@@ -1,6 +1,7 @@
 """C01 - recursive verification accepts exactly the trees that match their Manifests."""
 import posixpath
 
+from vf.halfsec import HalfSec
 from vf.engine import Cond, specialise
 from vf import venv_verify as ve
 
@@ -33,7 +34,8 @@ def mk_entry(etag, esize, nck, e1, e2, path='f'):
 
 def k1_pre(kind: int, etag: int, esize: int, nck: int, e1: str, e2: str, st_size: int,
            true_size: int, mtime: int, g1: str, g2: str, use_mtime: bool,
-           last_mtime: int, use_dev: bool, dev: int, expected_dev: int) -> bool:
+           last_mtime: int, use_dev: bool, dev: int, expected_dev: int,
+           half: bool = False) -> bool:
     return (0 <= kind <= 6 and 0 <= etag <= 6 and 0 <= nck <= 2 and esize >= 0
             and true_size >= 0 and (st_size == true_size or st_size == 0)
             and len(e1) <= 1 and len(e2) <= 1 and len(g1) <= 1 and len(g2) <= 1)
@@ -42,8 +44,11 @@ def k1_pre(kind: int, etag: int, esize: int, nck: int, e1: str, e2: str, st_size
 def k1_verify_path(kind: int, etag: int, esize: int, nck: int, e1: str, e2: str,
                    st_size: int, true_size: int, mtime: int, g1: str, g2: str,
                    use_mtime: bool, last_mtime: int, use_dev: bool, dev: int,
-                   expected_dev: int):
+                   expected_dev: int, half: bool = False):
     e = mk_entry(etag, esize, nck, e1, e2)
+    if half:
+        # st_mtime has sub-second resolution: half a second past the whole second
+        mtime = HalfSec(2 * mtime + 1)
     f = ve.OneFile(ve.KINDS[kind], dev=dev, st_size=st_size, mtime=mtime,
                    true_size=true_size, digests={HL[0]: g1, HL[1]: g2})
     raised = None
@@ -164,14 +169,18 @@ def _k3(t1, t2, s1, s2, p1a, p1b, p2a, p2b, a1, b1, a2, b2):
 def conditions(tier):
     cs = [
     ]
-    for etag in range(7):
+    for etag, fixed in [(t, {'half': False}) for t in range(7)] + \
+                       [(t, {'half': True, 'use_mtime': True}) for t in range(2, 7)]:
         cs.append(Cond(
-            f'k1_verify_path_e{etag}', specialise(k1_verify_path, etag=etag),
-            specialise(k1_pre, etag=etag), timeout=150, group='K1', twin=(etag >= 2),
+            f'k1_verify_path_e{etag}' + ('_subsec' if fixed['half'] else ''),
+            specialise(k1_verify_path, etag=etag, **fixed),
+            specialise(k1_pre, etag=etag, **fixed), timeout=300, group='K1',
+            twin=(etag >= 2),
             descr='real verify_path+get_file_metadata vs per-file rule; all attributes '
                   f'symbolic; entry = {(("none", "IGNORE") + FILE_TAGS)[etag]}',
             bounds='7 object kinds; unbounded ints; digests: any str of len<=1; '
-                   '<=2 hash names; st_size in {true size, 0}; last_mtime None or any int; '
+                   '<=2 hash names; st_size in {true size, 0}; last_mtime None or any int, '
+                   'st_mtime whole or with a half-second fraction; '
                    'expected_dev None or any int'))
     for p1a in (False, True):
         for p1b in (False, True):
